@@ -326,7 +326,9 @@ LineBody(k, val) ==
     LET ka == IF "comment_splice_nl" \in Dev THEN k ELSE AfterSplices(k)
         t  == Tr(ka.p)
         r  == PopOne(k, FALSE, FALSE)
-    IN IF t.w = 0 \/ t.c = NL THEN [k |-> ka, val |-> val, dv |-> IF ka # k THEN {"splice_col0"} ELSE {}]
+    IN IF t.w = 0 \/ t.c = NL
+       THEN [k |-> ka, val |-> val,
+             dv |-> IF ka # k THEN {"splice_col0"} \cup (IF t.c = NL THEN {"comment_splice_nl"} ELSE {}) ELSE {}]
        ELSE IF ~r.ok THEN [k |-> r.k, val |-> val, dv |-> r.dv]
        ELSE LET rest == LineBody(r.k, val \o r.t)
             IN [rest EXCEPT !.dv = @ \cup r.dv \cup
